@@ -19,6 +19,8 @@ def module_attr(ex, mod, attr):
         return ("reflag", "I")
     if mod == "sys" and attr == "maxsize":
         return 2**63 - 1
+    if mod.split(".")[0] == "nx" and attr in ("algorithms", "dag", "utils", "simple_paths"):
+        return ModRef(mod + "." + attr)
     if mod == "pp" and attr == "ParseException":
         return ClassRef("ParseException")
     return ModFn(mod, attr)
